@@ -362,6 +362,11 @@ PROPS["C05"] = dict(
 )
 
 UNOPT = ["data::compute_rook_attacks_unoptimized", "data::compute_bishop_attacks_unoptimized"]
+# the indexing scheme of the table FILL loops, which the look-up contract and the perfect-hashing conditions are written against: if the fill loops
+# move to another scheme, those two obligations are undecided (the native stand-in still decides look-up after fill)
+MAGIC_SCHEME = [("weechess-core/src/attacks.rs", r"let table_index = u64::wrapping_mul\(_blockers, magic\) >> shift;", 2),
+                ("weechess-core/src/attacks.rs", r"let shift = 64 - ROOK_MAGIC_INDEXES\[\*square\];", 1),
+                ("weechess-core/src/attacks.rs", r"let shift = 64 - BISHOP_MAGIC_INDEXES\[\*square\];", 1)]
 PROPS["C09"] = dict(
     obligations=[
         K("c09", "c09_square_offset_contract", desc="Square::offset is Some exactly for on-board results and equals file/rank "
@@ -383,7 +388,7 @@ PROPS["C09"] = dict(
         K("c09l", "c09_lookups_read_the_masked_magic_key", desc="AttackGenerator::compute_{rook,bishop,queen}_attacks (verbatim, against ABSTRACT tables): the look-up "
           "reads row `square` of the piece's own filled table at ((occ & MASK[sq]) * MAGIC[sq]) >> (64 - WIDTH[sq]) for every table content, square and "
           "occupancy; queen = rook | bishop", functions=["AttackGenerator::compute_rook_attacks", "AttackGenerator::compute_bishop_attacks",
-          "AttackGenerator::compute_queen_attacks"], timeout=1500),
+          "AttackGenerator::compute_queen_attacks"], timeout=1500, anchors=MAGIC_SCHEME),
         K("c09", "c09_lemma_off_mask_blockers_irrelevant", desc="spec-level lemma: blockers outside the slide mask never change the "
           "slider attack set (with the unopt and mask contracts: unopt(s,occ) == unopt(s, occ & mask(s)))", functions=[], timeout=1500),
         K("c09", "c09_blockers_from_index_contract", desc="compute_blockers_from_index deposits the low bits of the index into the "
@@ -394,7 +399,7 @@ PROPS["C09"] = dict(
              desc="the real ROOK/BISHOP magic constants and index widths, extracted from attacks.rs on every run: for every one of the 128 "
              "(piece, square) pairs no two blocker subsets of the slide mask with different attack sets share a table index "
              "(64-bit machine multiplication and shift as bit-vectors), and 1 <= width <= 12, width >= popcount(mask); 128 queries, all unsat",
-             functions=["data::ROOK_MAGICS", "data::BISHOP_MAGICS", "data::ROOK_MAGIC_INDEXES", "data::BISHOP_MAGIC_INDEXES"], timeout=900),
+             functions=["data::ROOK_MAGICS", "data::BISHOP_MAGICS", "data::ROOK_MAGIC_INDEXES", "data::BISHOP_MAGIC_INDEXES"], timeout=900, anchors=MAGIC_SCHEME),
     ] + [
         dict(name="c09_native_magic_tables_exhaustive", backend="native", kind="bounded", tier="quick", crate=CORE, file="c09.rs",
              test="c09_native_magic_tables_exhaustive", bound="native execution (not symbolic): every square x every subset of its "
